@@ -15,15 +15,16 @@ EXHAUSTIVE = {"quick": True, "thorough": True}
 MODES = {"quick": ["jit", "nojit"], "thorough": ["jit", "nojit", "bounds"], "search": ["jit", "nojit"]}
 CASE_TIMEOUT = 30
 RULE = ("exhaustive: every string column of length <= n over {'', 'a', ',', '\"', 'a,b', 'é'} x every partition of the rows "
-        "into consecutive spans x the full configuration grid src_chunksize in 1..5 x value buffer (dest_chunksize*mult) in "
-        "{2m, 2m+1, 2m+2, 2m+5, 64} (m = longest span output; 2m is the smallest buffer the property admits), factored "
-        "alternately as (V,1)/(1,V)/(a,b) (quick n<=3, thorough n<=4); columns of length n+1 with one rotating grid "
-        "point each (quick: every third of them); then seeded random columns up to 40 rows over a 14-piece alphabet with random partitions, general "
-        "(non-partition, even non-monotone) boundary lists, HDF5 and memory sources/destinations; a kernel-level stream "
-        "calling _apply_spans_concat_2 directly with arbitrary sp_start/dest_start_v/limits; and a stream with value "
-        "buffers smaller than twice the longest span output (these always execute the kernel's Python source, because "
-        "an out-of-bounds write under the JIT — the behaviour before fix NC16b — cannot be observed safely). Non-trivial = the model run makes >= 2 kernel calls or some span joins >= 2 non-empty "
-        "entries or quotes an entry; distinct = distinct case line.")
+        "into consecutive spans x the full configuration grid src_chunksize in 1..n (larger values behave like n) x value "
+        "buffer dest_chunksize*chunksize_mult in {2m, 2m+1, 2m+2, 2m+5, 64+2m} (m = longest span output), factored "
+        "alternately as (V,1)/(1,V)/(a,b) (quick n<=3, thorough n<=4); columns of length n+1 with one rotating grid point "
+        "each (quick: every third, thorough: every second of them); then seeded random columns up to 40 rows over a 14-piece alphabet with random "
+        "partitions, general (non-partition, even non-monotone) boundary lists, HDF5 and memory sources/destinations; a "
+        "kernel-level stream calling _apply_spans_concat_2 directly with arbitrary sp_start/dest_start_v/limits; and a "
+        "stream with value buffers from 0 to 2m-1 bytes (the sizing step of fix NC16b must grow them; these cases always "
+        "execute the kernel's Python source, because the out-of-bounds write of the code before the fix cannot be "
+        "observed safely under the JIT). Non-trivial = the model run makes >= 2 kernel calls or some span joins >= 2 "
+        "non-empty entries or quotes an entry; distinct = distinct case line.")
 ASSUMPTIONS = ["IndexedString fields store UTF-8 bytes in values and running offsets in indices; write_part on "
                "dest.indices / dest.values appends (C01); the harness re-reads target.indices/values and compares them with "
                "what the model was given",
@@ -219,7 +220,7 @@ def gen_cases(tier, rng):
             for spans in partitions(n):
                 if n <= n_full:
                     pts = grid
-                elif tier == "quick" and (k // 1) % 3 != 0:
+                elif k % (3 if tier == "quick" else 2) != 0:
                     k += 1
                     continue
                 else:
@@ -231,7 +232,7 @@ def gen_cases(tier, rng):
                         c["dst"] = "mem"
                     cases.append(c)
     # seeded random larger columns
-    nrand = 1500 if tier == "quick" else 40000
+    nrand = 1500 if tier == "quick" else 20000
     for t in range(nrand):
         n = rng.choice([rng.randrange(0, 10), rng.randrange(5, 41)])
         strs = [rng.choice(ALPHA_RAND) if rng.random() < 0.8 else rand_str(rng) for _ in range(n)]
